@@ -67,7 +67,7 @@ def _prune(keep):
     if not os.path.isdir(d):
         return
     entries = sorted((os.path.getmtime(os.path.join(d, e)), e) for e in os.listdir(d))
-    for _, e in entries[:-6]:
+    for _, e in entries[:-40]:
         if e != keep:
             shutil.rmtree(os.path.join(d, e), ignore_errors=True)
 
